@@ -27,12 +27,12 @@ type Finding struct {
 }
 
 type Report struct {
-	Scenario  string
-	Stats     *Stats
-	Findings  []Finding
-	Replayed  int
-	Threads   int
-	Ops       int
+	Scenario string
+	Stats    *Stats
+	Findings []Finding
+	Replayed int
+	Threads  int
+	Ops      int
 }
 
 // Solo computes what every op returns when it is the only call made on a fresh instance.
